@@ -143,14 +143,14 @@ pub fn run() {
 	let s255: String = "ü".repeat(127) + "x"; // 255 bytes of UTF-8
 	let k255: String = "k".repeat(255);
 	let marker = "U S l { } \u{0} [".to_string();
-	cx.note("rule", json!("all trees of a bounded grammar, every key ORDER included (ordered selections of distinct keys): level-1 maps with <=3 entries over keys {\"\", a, é, lastFrame, 255-byte key} (quick: 3 keys) and 12 leaf values (strings \"\", x, 255 bytes of 2-byte UTF-8, text made of the marker bytes U S l { } NUL; ints 0, 1, -1, 127, 128, 65536, i32::MIN, i32::MAX); nested trees to depth 3 with <=2 entries per map; chains of depth 1..140 (beyond depth 100 the reader may refuse; whatever it accepts must make the whole trip); widths up to 40 entries; 100..255 sibling maps (at top level, at depth 3, next to a 100-deep chain); no metadata; empty metadata; each with Game End present, absent or doubled (rotating). Encoded by the harness's own UBJSON writer, embedded in a minimal replay. Oracle: Game.metadata == the tree with the same key order, write reproduces the input bytes, metadata.json inside the .slpp (own tar reader, order-preserving tokenizer) has the same keys in the same order and the same values, peppi::read gives the same tree; absent metadata => None / null. Every case is non-trivial (distinct tree)"));
+	cx.note("rule", json!("all trees of a bounded grammar, every key ORDER included (ordered selections of distinct keys): level-1 maps with <=3 entries over keys {\"\", a, é, lastFrame, 255-byte key} (quick: 4 keys) and 12 leaf values (strings \"\", x, 255 bytes of 2-byte UTF-8, text made of the marker bytes U S l { } NUL; ints 0, 1, -1, 127, 128, 65536, i32::MIN, i32::MAX); nested trees to depth 3 with <=2 entries per map; chains of depth 1..140 (beyond depth 100 the reader may refuse; whatever it accepts must make the whole trip); widths up to 40 entries; 100..255 sibling maps (at top level, at depth 3, next to a 100-deep chain); no metadata; empty metadata; each with Game End present, absent or doubled (rotating). Encoded by the harness's own UBJSON writer, embedded in a minimal replay. Oracle: Game.metadata == the tree with the same key order, write reproduces the input bytes, metadata.json inside the .slpp (own tar reader, order-preserving tokenizer) has the same keys in the same order and the same values, peppi::read gives the same tree; absent metadata => None / null. Every case is non-trivial (distinct tree)"));
 	cx.note("exhaustive", json!(true));
 	cx.note("assumptions", json!(["map nesting is bounded by the library (fix 1cec1ba) so that hostile nesting cannot overflow the stack; a refusal beyond depth 100 is accepted", "trees larger than the grammar (more entries per map, deeper nesting with wide maps) are not enumerated"]));
 	let quick = cx.quick();
 	let ints = [0, 1, -1, 127, 128, 65_536, i32::MIN, i32::MAX];
 	let mut leaves: Vec<MVal> = vec![MVal::Str("".into()), MVal::Str("x".into()), MVal::Str(s255.clone()), MVal::Str(marker.clone())];
 	leaves.extend(ints.iter().map(|i| MVal::Int(*i)));
-	let keys1: Vec<String> = if quick { vec!["".into(), "a".into(), "é".into()] } else { vec!["".into(), "a".into(), "é".into(), "lastFrame".into(), k255.clone()] };
+	let keys1: Vec<String> = if quick { vec!["".into(), "a".into(), "é".into(), "lastFrame".into()] } else { vec!["".into(), "a".into(), "é".into(), "lastFrame".into(), k255.clone()] };
 	let mut all: Vec<Option<Meta>> = vec![None, Some(vec![])];
 	all.extend(trees(&[Level { max_entries: 3, keys: keys1, leaves: leaves.clone() }], 0).into_iter().map(Some));
 	// nested
